@@ -125,11 +125,15 @@ def _run(prop, prop_id, tier, seed, args, workdir, env, watchdog, reasons, t0) -
                 out = os.path.join(workdir, f"shard{s}.jsonl")
                 logs.append(out)
                 cmds.append([PY, "-m", "vf.worker", prop_id, tier, str(seed), str(s), str(nshards), out])
-        procs = [
-            subprocess.Popen(c, env=dict(env, VERIF_WORKDIR=os.path.join(workdir, f"w{i}")), cwd=ROOT,
-                             stdout=subprocess.DEVNULL, stderr=subprocess.PIPE, text=True)
-            for i, c in enumerate(cmds)
-        ]
+        procs = []
+        for i, c in enumerate(cmds):
+            # every worker gets its own copy of the warmed database cache: workers never share cache files, so
+            # a cache-loader problem in the tree under test (property C18) cannot take other checks down
+            wcache = os.path.join(workdir, f"cache{i}")
+            shutil.copytree(os.path.join(workdir, "cache"), wcache, dirs_exist_ok=True)
+            procs.append(subprocess.Popen(
+                c, env=dict(env, VERIF_WORKDIR=os.path.join(workdir, f"w{i}"), SPSDK_CACHE_FOLDER=wcache), cwd=ROOT,
+                stdout=subprocess.DEVNULL, stderr=subprocess.PIPE, text=True))
         deadline = time.monotonic() + watchdog
         for i, p in enumerate(procs):
             try:
